@@ -8,7 +8,17 @@ From FS Require Export Model.Exec.
 Record request := {
   q_stack : list policy; q_script : list fn_step; q_gap : Z;
   q_ext : option (Z * err);          (* offset from the start, ctx.Err() *)
-  q_key : ctxkey; q_withexec : bool; q_run : bool (* Run*: the result is discarded *) }.
+  q_key : ctxkey; q_withexec : bool; q_run : bool (* Run*: the result is discarded *);
+  q_lsn : bool * bool * bool (* which of Executor.OnSuccess / OnFailure / OnDone are registered *) }.
+
+(* an unregistered completion listener sees nothing (executor.go:274-281) *)
+Definition lsn_keeps (l : bool * bool * bool) (e : event) : bool :=
+  match e_kind e with
+  | KExecSuccess => fst (fst l)
+  | KExecFailure => snd (fst l)
+  | KExecDone => snd l
+  | _ => true
+  end.
 
 Record insts := {
   i_breakers : list (list bcall); i_limiters : list lcfg;
@@ -51,7 +61,7 @@ Definition run_request (now : Z) (b : list (bcfg * bstate (S := stats))) (l : li
   let w0 := fresh_world t0 (match q_ext q with Some (t, e) => Some (t0 + t, e) | None => None end) (q_key q) b l k c (q_script q) in
   let '(r, w1) := execute (fuel_of q) (q_stack q) w0 in
   let o := if q_run q then (0, pr_err r) else pr_out r in
-  ({| x_out := o; x_end := w_now w1; x_events := rev (w_trace w1); x_state := pub_state w1 |}, w1).
+  ({| x_out := o; x_end := w_now w1; x_events := filter (lsn_keeps (q_lsn q)) (rev (w_trace w1)); x_state := pub_state w1 |}, w1).
 
 Fixpoint any_flagged (now : Z) (b : list (bcfg * bstate (S := stats))) (l : list (lcfg * Z * lstate))
     (k : list (Z * Z)) (c : list (list (Z * Z))) (qs : list request) : bool :=
